@@ -60,11 +60,14 @@ type script struct {
 }
 
 type job struct {
-	Src    string   `json:"src"`
-	Out    string   `json:"out"`
-	Log    string   `json:"log"`
-	XVars  []string `json:"xvars"`
-	Script script   `json:"script"`
+	Src   string   `json:"src"`
+	Out   string   `json:"out"`
+	Log   string   `json:"log"`
+	XVars []string `json:"xvars"`
+	// Decls, if set, receives one [line, funcLitsBefore, funcLitsAfter] triple per top-level
+	// declaration of the input: a declaration gained function literals iff something in it was rewritten.
+	Decls  string `json:"decls"`
+	Script script `json:"script"`
 }
 
 type result struct {
@@ -287,6 +290,22 @@ func runJob(j job) (res result) {
 		}
 	}
 
+	countLits := func(n ast.Node) int {
+		c := 0
+		ast.Inspect(n, func(n ast.Node) bool {
+			if _, ok := n.(*ast.FuncLit); ok {
+				c++
+			}
+			return true
+		})
+		return c
+	}
+	origDecls := append([]ast.Decl(nil), file.Decls...)
+	declRows := make([][3]int, len(origDecls))
+	for i, d := range origDecls {
+		declRows[i] = [3]int{fset.Position(d.Pos()).Line, countLits(d), 0}
+	}
+
 	src := &scriptedSource{fallback: mathrand.NewSource(j.Script.Seed), sc: j.Script, cur: -1}
 	rnd := mathrand.New(src)
 	src.rnd = rnd
@@ -296,6 +315,16 @@ func runJob(j job) (res result) {
 		return "vf" + strconv.Itoa(names) + "_" + base
 	}
 	file = literals.Obfuscate(rnd, file, &info, linkStrings, nameFunc)
+
+	for i, d := range origDecls {
+		declRows[i][2] = countLits(d)
+	}
+	if j.Decls != "" {
+		data, _ := json.Marshal(declRows)
+		if err := os.WriteFile(j.Decls, data, 0o666); err != nil {
+			return result{Error: err.Error()}
+		}
+	}
 
 	var buf bytes.Buffer
 	if err := printer.Fprint(&buf, fset, file); err != nil {
